@@ -33,6 +33,12 @@ def run(ctx):
         return ctx.finish("other", "anchor missing", [], "")
     tf = {f["name"]: f for f in tag["fields"]}
     itf = {f["name"]: f for f in it["fields"]}
+    need = [n for n in ("i", "entries", "mmap_tag") if n not in itf] + [n for n in ("memory_map", "desc_size", "desc_version") if n not in tf]
+    if need:
+        # the rules below are written for the (tag reference, index, entry count) representation of the iterator
+        ctx.fail("ANCHOR", "EFIMemoryAreaIter:representation", "EFIMemoryAreaIter keeps (mmap_tag, i, entries) and the tag its (desc_size, desc_version, memory_map) fields",
+                 it.get("span", ""), "missing fields %s: the iterator's state is represented differently; S1-S5/IT are not applicable to it as written" % need)
+        return ctx.finish("other", "representation anchor missing", [], "")
     # ---- LY
     got = sorted((f["off"], f["size"]) for f in desc["fields"])
     want = sorted((o, w) for (_, o, w) in S.EFI_MEMORY_DESCRIPTOR["fields"])
